@@ -1,12 +1,12 @@
 import YaegiVerif.Model.VarInit
 import YaegiVerif.Spec.GoInitOrder
 /-
-  C15 — lemmas about the pass loop of `genGlobalVarDecl` (graph layer).
+  C15 — lemmas about the ordering loop of `genGlobalVarDecl` (graph layer).
 -/
 namespace YaegiVerif.Proofs.C15
 open YaegiVerif.VarInit YaegiVerif.Spec.InitOrder
 
-/-! ### one pass -/
+/-! ### one pass (one scan: append the earliest ready specification, keep the others) -/
 
 theorem pass_perm (g : Deps) (ns done : List Nat) :
     ((pass g ns done).1 ++ (pass g ns done).2).Perm (done ++ ns) := by
@@ -15,8 +15,7 @@ theorem pass_perm (g : Deps) (ns done : List Nat) :
   | cons n ns ih =>
     unfold pass
     split
-    · have := ih (done ++ [n])
-      simpa using this
+    · simp
     · have := ih done
       simp only
       refine (List.perm_middle).trans ?_
@@ -28,7 +27,7 @@ theorem pass_rev_length_le (g : Deps) (ns done : List Nat) : (pass g ns done).2.
   | cons n ns ih =>
     unfold pass
     split
-    · have := ih (done ++ [n]); simp; omega
+    · simp
     · have := ih done; simp; omega
 
 /-- if nothing was removed from the list, nothing was appended and nothing was ready -/
@@ -41,8 +40,7 @@ theorem pass_stuck (g : Deps) (ns done : List Nat) (h : (pass g ns done).2.lengt
     split
     · rename_i hr
       simp only [hr, if_true] at h
-      have := pass_rev_length_le g ns (done ++ [n])
-      simp at h; omega
+      simp at h
     · rename_i hr
       simp only [hr] at h
       simp at h
@@ -61,7 +59,7 @@ theorem pass_rev_sublist (g : Deps) (ns done : List Nat) : (pass g ns done).2.Su
   | cons n ns ih =>
     unfold pass
     split
-    · exact (ih _).cons n
+    · exact List.sublist_cons_self n ns
     · exact (ih _).cons_cons n
 
 theorem respectsFrom_append (g : Deps) (pre a b : List Nat) :
@@ -80,7 +78,7 @@ theorem pass_respects (g : Deps) (ns done : List Nat) (h : respectsFrom g [] don
     unfold pass
     split
     · rename_i hr
-      apply ih
+      simp only
       rw [respectsFrom_append]
       simp [h, respectsFrom, hr]
     · exact ih done h
@@ -275,223 +273,64 @@ theorem loopGo_stuck (g : Deps) (F : Nat) (l done : List Nat) (hne : l ≠ [])
     | zero => simp at hl
     | succ F => simp only [loopGo, (splitReady_none g done (x :: xs)).mpr hst]
 
-/-! ### simulation: a clean pass is a run of the specification's loop -/
+/-! ### simulation: one scan is one step of the specification's loop -/
 
-theorem pass_sim (g : Deps) (F : Nat) (sk ns done : List Nat)
-    (hc : passClean g sk ns done = true) (hF : (sk ++ ns).length ≤ F) :
-    loopGo g F (sk ++ ns) done = loopGo g F (sk ++ (pass g ns done).2) (pass g ns done).1 := by
-  induction ns generalizing sk done with
-  | nil => simp [pass]
-  | cons n ns ih =>
-    unfold passClean at hc
-    unfold pass
-    by_cases hr : ready g done n = true
-    · simp only [hr, if_true, Bool.and_eq_true, List.all_eq_true, Bool.not_eq_true'] at hc ⊢
-      obtain ⟨hsk, hc'⟩ := hc
-      rw [loopGo_step g F _ done sk ns n (splitReady_first g done sk ns n hsk hr) hF]
-      apply ih _ _ hc'
-      simp at hF ⊢; omega
-    · simp only [hr, Bool.false_eq_true, if_false] at hc ⊢
-      have := ih (sk ++ [n]) done hc (by simpa using hF)
-      simpa using this
+/-- the scan of `genGlobalVarDecl` splits the remaining specifications at the earliest ready one,
+    exactly as the specification does -/
+theorem pass_split (g : Deps) (l done : List Nat) :
+    pass g l done =
+      match splitReady g done l with
+      | some (p, v, q) => (done ++ [v], p ++ q)
+      | none => (done, l) := by
+  induction l with
+  | nil => simp [pass, splitReady]
+  | cons x xs ih =>
+    unfold pass splitReady
+    by_cases hr : ready g done x = true
+    · simp [hr]
+    · simp only [hr, Bool.false_eq_true, if_false]
+      rw [ih]
+      cases splitReady g done xs with
+      | none => rfl
+      | some r => obtain ⟨p, v, q⟩ := r; rfl
 
+/-- **the loop of `genGlobalVarDecl` is the specification's loop**, from any state, for any
+    sufficient fuel (no side condition) -/
 theorem loopY_eq_loopGo (g : Deps) (f F : Nat) (nodes done : List Nat)
-    (hc : loopClean g f nodes done = true) (hf : nodes.length < f) (hF : nodes.length ≤ F) :
+    (hf : nodes.length < f) (hF : nodes.length ≤ F) :
     loopY g f nodes done = loopGo g F nodes done := by
   induction f generalizing nodes done with
   | zero => omega
   | succ f ih =>
-    unfold loopClean at hc
-    simp only [Bool.and_eq_true] at hc
-    obtain ⟨hpc, hrest⟩ := hc
-    have hsim := pass_sim g F [] nodes done hpc (by simpa using hF)
-    simp only [List.nil_append] at hsim
     unfold loopY
     simp only
-    have hle := pass_rev_length_le g nodes done
-    split
-    · rename_i he
-      have he' : (pass g nodes done).2 = [] := by simpa using he
-      rw [hsim, he']
-      cases F <;> simp [loopGo]
-    · rename_i hne
+    rw [pass_split]
+    cases hs : splitReady g done nodes with
+    | none =>
+      simp only
+      cases nodes with
+      | nil => cases F <;> simp [loopGo]
+      | cons x xs =>
+        have hst := (splitReady_none g done (x :: xs)).mp hs
+        rw [loopGo_stuck g F (x :: xs) done (by simp) hF hst]
+        simp
+    | some r =>
+      obtain ⟨p, v, q⟩ := r
+      simp only
+      have hsp := (splitReady_some g done nodes p q v hs).1
+      have hlen : (p ++ q).length + 1 = nodes.length := by rw [hsp]; simp; omega
+      rw [loopGo_step g F nodes done p q v hs hF]
       split
-      · rename_i heq
-        have heq' : (pass g nodes done).2 = nodes := by simpa using heq
-        have hs := pass_stuck g nodes done (by rw [heq'])
-        have hnn : nodes ≠ [] := by
-          intro hnil; rw [heq', hnil] at hne; simp at hne
-        exact (loopGo_stuck g F nodes done hnn hF hs.2.2).symm
-      · rename_i hneq
-        simp only [hne, hneq, Bool.false_eq_true, if_false] at hrest
-        have hlt : (pass g nodes done).2.length ≠ nodes.length := by
-          intro heq
-          have := (pass_stuck g nodes done heq).2.1
-          simp [this] at hneq
-        rw [hsim]
-        exact ih _ _ hrest (by omega) (by omega)
-
-/-! ### converse: an overtaking pass is *not* a run of the specification's loop -/
-
-theorem pass_prefix (g : Deps) (ns done : List Nat) : ∃ ext, (pass g ns done).1 = done ++ ext := by
-  induction ns generalizing done with
-  | nil => exact ⟨[], by simp [pass]⟩
-  | cons n ns ih =>
-    unfold pass
-    split
-    · obtain ⟨e, he⟩ := ih (done ++ [n])
-      exact ⟨n :: e, by simp [he]⟩
-    · exact ih done
-
-theorem loopY_prefix (g : Deps) (f : Nat) (nodes done l : List Nat) (h : loopY g f nodes done = .ok l) :
-    ∃ ext, l = (pass g nodes done).1 ++ ext := by
-  induction f generalizing nodes done with
-  | zero => simp [loopY] at h
-  | succ f ih =>
-    unfold loopY at h
-    simp only at h
-    split at h
-    · cases h; exact ⟨[], by simp⟩
-    · split at h
-      · cases h
-      · obtain ⟨e, he⟩ := ih _ _ h
-        obtain ⟨e2, he2⟩ := pass_prefix g (pass g nodes done).2 (pass g nodes done).1
-        exact ⟨e2 ++ e, by rw [he, he2, List.append_assoc]⟩
-
-theorem loopGo_prefix (g : Deps) (F : Nat) (rem done l : List Nat) (h : loopGo g F rem done = .ok l) :
-    ∃ ext, l = done ++ ext := by
-  induction F generalizing rem done with
-  | zero =>
-    cases rem with
-    | nil => simp [loopGo] at h; exact ⟨[], by simp [h]⟩
-    | cons x xs => simp [loopGo] at h
-  | succ F ih =>
-    cases rem with
-    | nil => simp [loopGo] at h; exact ⟨[], by simp [h]⟩
-    | cons x xs =>
-      simp only [loopGo] at h
-      cases hs : splitReady g done (x :: xs) with
-      | none => simp [hs] at h
-      | some r =>
-        obtain ⟨p, v, q⟩ := r
-        simp only [hs] at h
-        obtain ⟨e, he⟩ := ih _ _ h
-        exact ⟨v :: e, by simp [he]⟩
-
-theorem splitReady_find (g : Deps) (done l p q : List Nat) (v : Nat)
-    (h : splitReady g done l = some (p, v, q)) : l.find? (ready g done) = some v := by
-  induction l generalizing p with
-  | nil => simp [splitReady] at h
-  | cons x xs ih =>
-    unfold splitReady at h
-    by_cases hr : ready g done x = true
-    · simp only [hr, if_true, Option.some.injEq, Prod.mk.injEq] at h
-      obtain ⟨_, rfl, _⟩ := h
-      simp [List.find?, hr]
-    · simp only [hr, Bool.false_eq_true, if_false] at h
-      cases hs : splitReady g done xs with
-      | none => simp [hs] at h
-      | some r =>
-        obtain ⟨p', v', q'⟩ := r
-        simp only [hs, Option.some.injEq, Prod.mk.injEq] at h
-        obtain ⟨_, rfl, rfl⟩ := h
-        have hr' : ready g done x = false := by simpa using hr
-        simp [List.find?, hr', ih p' hs]
-
-theorem pass_dirty (g : Deps) (F : Nat) (sk ns done l : List Nat)
-    (hc : passClean g sk ns done = false) (hnd : (sk ++ ns).Nodup) (hF : (sk ++ ns).length ≤ F)
-    (hl : ∃ ext, l = (pass g ns done).1 ++ ext) : loopGo g F (sk ++ ns) done ≠ .ok l := by
-  induction ns generalizing sk done with
-  | nil => simp [passClean] at hc
-  | cons n ns ih =>
-    unfold passClean at hc
-    unfold pass at hl
-    by_cases hr : ready g done n = true
-    · simp only [hr, if_true] at hc hl
-      by_cases hall : (sk.all fun s => !ready g done s) = true
-      · -- the append is the specification's pick; the defect is later in the pass
-        simp only [hall, Bool.true_and] at hc
-        have hsk : ∀ s ∈ sk, ready g done s = false := by
-          simpa [List.all_eq_true] using hall
-        rw [loopGo_step g F _ done sk ns n (splitReady_first g done sk ns n hsk hr) hF]
-        apply ih sk (done ++ [n]) hc
-        · exact hnd.sublist (List.Sublist.append_left (List.sublist_cons_self n ns) sk)
-        · simp at hF ⊢; omega
-        · exact hl
-      · -- some skipped variable is ready: the specification picks it, the pass appends `n`
-        intro hgo
-        have hex : ∃ s ∈ sk, ready g done s = true := by
-          have : (sk.all fun s => !ready g done s) = false := by simpa using hall
-          rw [List.all_eq_false] at this
-          obtain ⟨s, hs, hns⟩ := this
-          exact ⟨s, hs, by simpa using hns⟩
-        obtain ⟨s, hs, hsr⟩ := hex
-        cases hsp : splitReady g done (sk ++ n :: ns) with
-        | none =>
-          have := (splitReady_none g done _).mp hsp s (by simp [hs])
-          rw [this] at hsr; cases hsr
-        | some r =>
-          obtain ⟨p, v, q⟩ := r
-          have hfind := splitReady_find g done _ p q v hsp
-          rw [List.find?_append] at hfind
-          have hvsk : v ∈ sk := by
-            cases hf : sk.find? (ready g done) with
-            | none =>
-              have := List.find?_eq_none.mp hf s hs
-              exact absurd hsr this
-            | some w =>
-              rw [hf] at hfind
-              simp at hfind
-              subst hfind
-              exact List.mem_of_find?_eq_some hf
-          rw [loopGo_step g F _ done p q v hsp hF] at hgo
-          obtain ⟨e1, he1⟩ := loopGo_prefix g F _ _ l hgo
-          obtain ⟨e2, he2⟩ := hl
-          obtain ⟨e3, he3⟩ := pass_prefix g ns (done ++ [n])
-          rw [he3] at he2
-          rw [he2] at he1
-          simp only [List.append_assoc, List.cons_append, List.nil_append] at he1
-          have := List.append_cancel_left he1
-          simp only [List.cons.injEq] at this
-          have hvn : n = v := this.1
-          subst hvn
-          have := (List.nodup_append.mp hnd).2.2 n hvsk n (by simp)
-          exact this rfl
-    · simp only [hr, Bool.false_eq_true, if_false] at hc hl
-      have := ih (sk ++ [n]) done hc (by simpa using hnd) (by simpa using hF) hl
-      simpa using this
-
-theorem loopY_dirty (g : Deps) (f F : Nat) (nodes done l : List Nat)
-    (hc : loopClean g f nodes done = false) (hnd : nodes.Nodup) (hf : nodes.length < f) (hF : nodes.length ≤ F)
-    (hy : loopY g f nodes done = .ok l) : loopGo g F nodes done ≠ .ok l := by
-  induction f generalizing nodes done with
-  | zero => omega
-  | succ f ih =>
-    have hpre := loopY_prefix g _ _ _ l hy
-    unfold loopClean at hc
-    by_cases hpc : passClean g [] nodes done = true
-    · simp only [hpc, Bool.true_and] at hc
-      have hsim := pass_sim g F [] nodes done hpc (by simpa using hF)
-      simp only [List.nil_append] at hsim
-      unfold loopY at hy
-      simp only at hy
-      split at hy
-      · rename_i he; simp [he] at hc
-      · rename_i hne
-        split at hy
-        · cases hy
-        · rename_i hneq
-          simp only [hne, hneq, Bool.false_eq_true, if_false] at hc
-          have hle := pass_rev_length_le g nodes done
-          have hlt : (pass g nodes done).2.length ≠ nodes.length := by
-            intro heq
-            have := (pass_stuck g nodes done heq).2.1
-            simp [this] at hneq
-          rw [hsim]
-          exact ih _ _ hc (hnd.sublist (pass_rev_sublist g nodes done)) (by omega) (by omega) hy
-    · have hpc' : passClean g [] nodes done = false := by simpa using hpc
-      have := pass_dirty g F [] nodes done l hpc' (by simpa using hnd) (by simpa using hF) hpre
-      simpa using this
+      · rename_i he
+        have he' : p ++ q = [] := by simpa using he
+        rw [he']
+        cases F <;> simp [loopGo]
+      · split
+        · rename_i heq
+          have heq' : p ++ q = nodes := by simpa using heq
+          rw [heq'] at hlen
+          omega
+        · exact ih _ _ (by omega) (by omega)
 
 /-! ### the specification's loop is itself well behaved -/
 
